@@ -37,6 +37,7 @@ def Micro.LP : Micro → Prop
   | .alloc _ _ g => ∀ off, Osmium.Buf.LP (g off)
   | .upd g => Osmium.Buf.LP g
   | .deref _ g => ∀ off, Osmium.Buf.LP (g off)
+  | .finish _ => True
 
 /-! ### padded / capacity arithmetic -/
 
@@ -185,7 +186,7 @@ theorem extend_bounds (n : Nat) (g : Buf) (h : g.committed ≤ g.written) (hc : 
   simp only [Buf.Bounds, extend, Buf.written, List.length_append, List.length_replicate] at *
   omega
 
-/-! ### micro steps keep the bounds -/
+/-! ### writes to the uncommitted part -/
 
 theorem onPend_written (f : Pend → Pend) (b : Buf) (hf : LP f) (h : b.committed ≤ b.written) :
     (b.onPend f).written = b.written := by
@@ -210,44 +211,6 @@ theorem onPend_done (f : Pend → Pend) (b : Buf) (h : b.committed ≤ b.written
 
 def St.Bounds (s : St) : Prop := s.b0.Bounds ∧ s.b1.Bounds
 
-theorem execMicro_bounds (s s' : St) (m : Micro) (hm : m.LP) (hs : s.Bounds) (h : execMicro s m = .ok s') : s'.Bounds := by
-  cases m with
-  | alloc n save g =>
-    simp only [execMicro] at h
-    split at h
-    · cases h
-    · rename_i b' hr
-      injection h with h
-      subst h
-      obtain ⟨g', hg, rfl, hcap⟩ := reserve_spec _ _ _ hs.1 hr
-      refine ⟨onPend_bounds _ _ (hm _) (extend_bounds _ _ hg.comm hcap ?_), hs.2⟩
-      have := hg.capge; have := hs.1.2.2; omega
-  | upd g =>
-    simp only [execMicro] at h
-    injection h with h; subst h
-    exact ⟨onPend_bounds _ _ hm hs.1, hs.2⟩
-  | deref keep g =>
-    simp only [execMicro] at h
-    split at h
-    · cases h
-    · split at h
-      · cases h
-      · split at h
-        · injection h with h; subst h
-          exact ⟨onPend_bounds _ _ (hm _) hs.1, hs.2⟩
-        · cases h
-
-theorem execMicros_bounds (ms : List Micro) (s : St) (hm : ∀ m ∈ ms, m.LP) (hs : s.Bounds) :
-    (execMicros s ms).1.Bounds := by
-  induction ms generalizing s with
-  | nil => exact hs
-  | cons m ms ih =>
-    simp only [execMicros]
-    split
-    · exact hs
-    · rename_i s' h
-      exact ih s' (fun x hx => hm x (List.mem_cons_of_mem _ hx)) (execMicro_bounds s s' m (hm m (List.mem_cons_self)) hs h)
-
 /-! ### every micro program of the builders is length preserving -/
 
 def AllLP (ms : List Micro) : Prop := ∀ m ∈ ms, m.LP
@@ -263,7 +226,7 @@ theorem allLP_nil : AllLP [] := by intro m hm; cases hm
 theorem allLP_mAppend (offs : List Nat) (d : Bytes) : AllLP (mAppend offs d) := by
   intro m hm
   simp only [mAppend, List.mem_cons, List.not_mem_nil, or_false] at hm
-  rcases hm with rfl | rfl <;> simp [Micro.LP, LP]
+  subst hm; simp [Micro.LP, LP]
 
 theorem allLP_mPadding (offs : List Nat) (self : Bool) : AllLP (mPadding offs self) := by
   intro m hm
@@ -271,7 +234,7 @@ theorem allLP_mPadding (offs : List Nat) (self : Bool) : AllLP (mPadding offs se
   | nil => simp [mPadding] at hm
   | cons t ps =>
     simp only [mPadding, List.mem_cons, List.not_mem_nil, or_false] at hm
-    rcases hm with rfl | rfl <;> simp [Micro.LP, LP]
+    subst hm; simp [Micro.LP, LP]
 
 theorem allLP_mCtor (k : Kind) (offs : List Nat) : AllLP (mCtor k offs) := by
   intro m hm
@@ -284,9 +247,8 @@ theorem allLP_mSetUser (k : Kind) (offs : List Nat) (u : Bytes) : AllLP (mSetUse
   | nil => simp [mSetUser] at hm
   | cons t ps =>
     simp only [mSetUser, List.mem_cons, List.not_mem_nil, or_false] at hm
-    rcases hm with rfl | rfl
-    · simp [Micro.LP, LP]
-    · simp only [Micro.LP, LP]; intro p; split <;> (try split) <;> simp
+    subst hm
+    simp only [Micro.LP, LP]; intro off p; split <;> (try split) <;> simp
 
 theorem allLP_mTag (offs : List Nat) (k v : Bytes) : AllLP (mTag offs k v) :=
   allLP_append (allLP_mAppend _ _) (allLP_mAppend _ _)
@@ -299,7 +261,7 @@ theorem allLP_mMember (offs : List Nat) (ty : Nat) (ref : Int) (role : Bytes) (f
   refine allLP_append (allLP_append (allLP_append ?_ (allLP_mAppend _ _)) (allLP_mPadding _ _)) ?_
   · intro m hm
     simp only [List.mem_cons, List.not_mem_nil, or_false] at hm
-    rcases hm with rfl | rfl | rfl <;> simp [Micro.LP, LP]
+    rcases hm with rfl | rfl <;> simp [Micro.LP, LP]
   · cases full with
     | none => exact allLP_nil
     | some fm => exact allLP_mAppend _ _
@@ -309,7 +271,7 @@ theorem allLP_mComment (offs : List Nat) (d u : Nat) (user : Bytes) : AllLP (mCo
   refine allLP_append ?_ (allLP_mAppend _ _)
   intro m hm
   simp only [List.mem_cons, List.not_mem_nil, or_false] at hm
-  rcases hm with rfl | rfl | rfl <;> simp [Micro.LP, LP]
+  rcases hm with rfl | rfl <;> simp [Micro.LP, LP]
 
 theorem allLP_mCommentText (offs : List Nat) (t : Bytes) : AllLP (mCommentText offs t) := by
   unfold mCommentText
@@ -321,7 +283,10 @@ theorem allLP_mCommentText (offs : List Nat) (t : Bytes) : AllLP (mCommentText o
 theorem allLP_mDtor (k : Kind) (offs : List Nat) : AllLP (mDtor k offs) := by
   unfold mDtor; split
   · exact allLP_nil
-  · exact allLP_mPadding _ _
+  · refine allLP_append ?_ (allLP_mPadding _ _)
+    split
+    · intro m hm; simp only [List.mem_cons, List.not_mem_nil, or_false] at hm; subst hm; trivial
+    · exact allLP_nil
 
 theorem allLP_single_upd (g : Pend → Pend) : AllLP [.upd g] ↔ LP g := by
   constructor
@@ -341,6 +306,86 @@ theorem plan_LP (fs : List (Nat × Kind)) (pl : Nat) (aux : Bytes) (av : Bool) (
        simp only [allLP_mCtor, allLP_mSetUser, allLP_mTag, allLP_mNodeRef, allLP_mMember, allLP_mComment,
          allLP_mCommentText, allLP_mDtor, allLP_single_alloc, allLP_single_upd, LP, setLE_length, writeAt_length,
          flagWord_length, implies_true])
+
+/-! ### micro steps keep the bounds -/
+
+/-- an invariant of single steps is an invariant of `execList` (whether or not it ends in an error) -/
+theorem execList_inv (ex : St → Micro → Except Err St) (P : St → Prop) (Q : Micro → Prop)
+    (h : ∀ s s' m, Q m → P s → ex s m = .ok s' → P s') (ms : List Micro) (s : St)
+    (hq : ∀ m ∈ ms, Q m) (hp : P s) : P (execList ex s ms).1 := by
+  induction ms generalizing s with
+  | nil => exact hp
+  | cons m ms ih =>
+    simp only [execList]
+    split
+    · exact hp
+    · rename_i s' hs'
+      exact ih s' (fun x hx => hq x (List.mem_cons_of_mem _ hx)) (h s s' m (hq m List.mem_cons_self) hp hs')
+
+/-- `finish` either does nothing or is a run of the primitive steps of `add_text(current, "", 0)`
+    whose buffer_is_full is swallowed -/
+theorem execMicro_finish (s s' : St) (offs : List Nat) (h : execMicro s (.finish offs) = .ok s') :
+    s' = s ∨ s' = (execList execBase s (mCommentText offs [])).1 := by
+  simp only [execMicro] at h
+  split at h
+  · split at h
+    · rename_i s1 he; injection h with h; subst h; right; rw [he]
+    · rename_i s1 he; injection h with h; subst h; right; rw [he]
+    · cases h
+  · injection h with h; exact Or.inl h.symm
+
+theorem execMicro_base (s : St) (m : Micro) (hm : ∀ offs, m ≠ .finish offs) : execMicro s m = execBase s m := by
+  cases m with
+  | finish offs => exact absurd rfl (hm offs)
+  | alloc n save g => rfl
+  | upd g => rfl
+  | deref keep g => rfl
+
+theorem execBase_bounds (s s' : St) (m : Micro) (hm : m.LP) (hs : s.Bounds) (h : execBase s m = .ok s') : s'.Bounds := by
+  cases m with
+  | alloc n save g =>
+    simp only [execBase] at h
+    split at h
+    · cases h
+    · rename_i b' hr
+      injection h with h
+      subst h
+      obtain ⟨g', hg, rfl, hcap⟩ := reserve_spec _ _ _ hs.1 hr
+      refine ⟨onPend_bounds _ _ (hm _) (extend_bounds _ _ hg.comm hcap ?_), hs.2⟩
+      have := hg.capge; have := hs.1.2.2; omega
+  | upd g =>
+    simp only [execBase] at h
+    injection h with h; subst h
+    exact ⟨onPend_bounds _ _ hm hs.1, hs.2⟩
+  | deref keep g =>
+    simp only [execBase] at h
+    split at h
+    · cases h
+    · split at h
+      · cases h
+      · split at h
+        · injection h with h; subst h
+          exact ⟨onPend_bounds _ _ (hm _) hs.1, hs.2⟩
+        · cases h
+  | finish offs => simp only [execBase] at h; injection h with h; subst h; exact hs
+
+theorem execBaseList_bounds (ms : List Micro) (s : St) (hm : AllLP ms) (hs : s.Bounds) :
+    (execList execBase s ms).1.Bounds :=
+  execList_inv execBase St.Bounds Micro.LP (fun s s' m hq hp h => execBase_bounds s s' m hq hp h) ms s hm hs
+
+theorem execMicro_bounds (s s' : St) (m : Micro) (hm : m.LP) (hs : s.Bounds) (h : execMicro s m = .ok s') : s'.Bounds := by
+  cases m with
+  | finish offs =>
+    rcases execMicro_finish s s' offs h with rfl | rfl
+    · exact hs
+    · exact execBaseList_bounds _ s (allLP_mCommentText _ _) hs
+  | alloc n save g => exact execBase_bounds s s' _ hm hs h
+  | upd g => exact execBase_bounds s s' _ hm hs h
+  | deref keep g => exact execBase_bounds s s' _ hm hs h
+
+theorem execMicros_bounds (ms : List Micro) (s : St) (hm : ∀ m ∈ ms, m.LP) (hs : s.Bounds) :
+    (execMicros s ms).1.Bounds :=
+  execList_inv execMicro St.Bounds Micro.LP (fun s s' m hq hp h => execMicro_bounds s s' m hq hp h) ms s hm hs
 
 /-! ### whole operations keep the bounds -/
 
